@@ -25,7 +25,7 @@ class BuiltinMixin:
                 return self.container_method(callee.py[1], callee.py[2], node, st, fr)
             args, kwargs = self.eval_args(node, st, fr)
             if kind == "bound":
-                return self.call_function(callee.py[2], [callee.py[1]] + args, kwargs, st, fr, node)
+                return self.dispatch(callee.py[1], callee.py[3], callee.py[2], args, kwargs, st, fr, node)
             if kind == "classmethod":
                 m = callee.py[2]
                 if "classmethod" in m.decorators or any("cached_classmethod" in d for d in m.decorators):
@@ -53,6 +53,26 @@ class BuiltinMixin:
             args, kwargs = self.eval_args(node, st, fr)
             return self.construct(callee, args, kwargs, st, fr, node)
         raise Untranslatable(f"call of {ast.unparse(fn)[:60]} ({callee.pt})")
+
+    def dispatch(self, obj: SV, mname: str, static_impl, args, kwargs, st, fr, node):
+        """closed-world dynamic dispatch: one case per distinct implementation among the subclasses of the static class"""
+        cls = self.static_class(obj)
+        impls = {}
+        if cls is not None:
+            for sub in self.voc.subclasses_of(cls.replace(".", "__")):
+                m = self.repo.find_method(sub.replace("__", "."), mname)
+                if m is not None:
+                    impls.setdefault(m.key, (m, []))[1].append(sub)
+        if len(impls) <= 1:
+            return self.call_function(static_impl, [obj] + args, kwargs, st, fr, node)
+        res = None
+        ov = self.box(obj)
+        for key, (m, subs) in sorted(impls.items()):
+            g = z3.Or([self.voc.ty(ov) == self.voc.cls[s_] for s_ in subs])
+            o2 = SV(obj.t, "obj:" + subs[0].replace("__", ".")) if len(subs) == 1 else obj
+            r = self.under(st, g, lambda m=m, o2=o2: self.call_function(m, [o2] + args, dict(kwargs), st, fr, node))
+            res = r if res is None else self.ite(g, r, res)
+        return res
 
     def eval_args(self, node, st, fr):
         args = []
@@ -262,10 +282,14 @@ class BuiltinMixin:
         j = self.fresh("qj", z3.IntSort())
         n_f = len(st.facts)
         elem = self.with_sort(v.sat(seq.t, j), esort)
-        b = pred(elem)
+        rng = z3.And(0 <= j, j < v.slen(seq.t))
+        st.guards.append(rng)
+        try:
+            b = pred(elem)
+        finally:
+            st.guards.pop()
         new_facts = st.facts[n_f:]
         del st.facts[n_f:]
-        rng = z3.And(0 <= j, j < v.slen(seq.t))
         if isinstance(b, tuple):
             _, c, body = b
             b = z3.And(c, body) if combine == "any" else z3.Implies(c, body)
@@ -366,7 +390,8 @@ class BuiltinMixin:
 
     # ------------------------------------------------------------------ spec-only functions (contract language)
     SPEC_ONLY = {"card", "implies", "iff", "forall", "exists", "subset", "set_eq", "old", "is_class", "keys_of",
-                 "ty_is", "same_class", "unchanged", "fresh_obj", "no_effects", "effects", "attr", "sel", "tuple2", "sval", "ival"}
+                 "ty_is", "same_class", "unchanged", "fresh_obj", "no_effects", "effects", "attr", "sel", "tuple2", "sval", "ival",
+                 "mro_of", "seq_len", "dict_len", "truthy", "dict_get", "pyeval_str", "at", "is_none"}
     SPEC_CONSTS = {}
 
     def bi_card(self, node, st, fr):
@@ -500,3 +525,64 @@ class BuiltinMixin:
             o = self.box(self.ev(node.args[1], st, fr))
             return SV(z3.Select(cur, o) == z3.Select(old, o), "bool")
         return SV(cur == old, "bool")
+
+    def mro_term(self, cls_term):
+        v = self.voc
+        f = v.fn("mro_of_cls", v.Cls, v.Val)
+        if not getattr(self, "_mro_done", False):
+            self._mro_done = True
+            for name, const in v.cls.items():
+                key = name.replace("__", ".")
+                ci = self.repo.classes.get(key)
+                if ci is not None and ci.mro:
+                    chain = [c for c in ci.mro if c.replace(".", "__") in v.cls] 
+                    if "object" not in chain:
+                        chain.append("object")
+                elif name in ("int", "float", "str", "bool", "list", "dict", "set", "tuple"):
+                    chain = v._builtin_mro(name) + ["object"]
+                else:
+                    continue
+                t = f(const)
+                self.global_facts.append(v.slen(t) == len(chain))
+                self.global_facts.append(v.ty(t) == v.cls["tuple"])
+                for i, c in enumerate(chain):
+                    self.global_facts.append(v.sat(t, z3.IntVal(i)) == v.clsobj(v.cls[c.replace(".", "__")]))
+        return f(cls_term)
+
+    def bi_mro_of(self, node, st, fr):
+        x = self.ev(node.args[0], st, fr)
+        v = self.voc
+        xv = self.box(x)
+        c = z3.If(v.ty(xv) == v.cls["type"], v.cls_of(xv), v.ty(xv))
+        return SV(self.mro_term(c), "tuple")
+
+    def bi_seq_len(self, node, st, fr):
+        x = self.ev(node.args[0], st, fr)
+        return SV(self.voc.slen(self.box(x)), "int")
+
+    def bi_dict_len(self, node, st, fr):
+        x = self.ev(node.args[0], st, fr)
+        return SV(self.voc.dlen(self.box(x)), "int")
+
+    def bi_truthy(self, node, st, fr):
+        return SV(self.truth(self.ev(node.args[0], st, fr)), "bool")
+
+    def bi_is_none(self, node, st, fr):
+        return SV(self.box(self.ev(node.args[0], st, fr)) == self.voc.NONE, "bool")
+
+    def bi_dict_get(self, node, st, fr):
+        d = self.box(self.ev(node.args[0], st, fr))
+        k = self.box(self.ev(node.args[1], st, fr))
+        v = self.voc
+        default = self.box(self.ev(node.args[2], st, fr)) if len(node.args) > 2 else v.NONE
+        return SV(z3.If(v.dhas(d, k), v.dget(d, k), default), "any")
+
+    def bi_at(self, node, st, fr):
+        x = self.box(self.ev(node.args[0], st, fr))
+        i = self.unbox(self.ev(node.args[1], st, fr), "int").t
+        return SV(self.voc.sat(x, i), "any")
+
+    def bi_pyeval_str(self, node, st, fr):
+        x = self.unbox(self.ev(node.args[0], st, fr), "str")
+        f = self.voc.fn("pyeval_str", z3.StringSort(), z3.StringSort())
+        return SV(f(x.t), "str")
